@@ -15,8 +15,9 @@ CONSTANTS
   MaxSeq = 2
   InitAll = 0
   Warm = 3
-  ClassSet = {"push", "push2", "apply", "apply2", "unary", "set", "setother", "clear", "rowwrite", "import"}
+  ClassSet = {"push", "push2", "apply", "apply2", "unary", "set", "reset", "setother", "clear", "rowwrite", "import"}
   LeafKinds = {"row", "rowt", "cond", "empty"}
+  Script = "none"
 INIT Init
 NEXT Next
 INVARIANT Emit
